@@ -23,7 +23,9 @@ RULE = ("random rule trees (depth<=3, <=4 children per rule, children drawn from
         "some of the variables, or absent (a branch that only suppresses); a fifth of the cases are deep chains (refinement of a refinement of a refinement with "
         "alternatives / next_rules written inside the deeper blocks) over two variables; branch conditions may be a "
         "Predicate / HasType on their own; an eighth of the cases range over x and e = flatten(x.items) with conclusions "
-        "built from both; thorough adds every tree "
+        "built from both; a tenth have quantified conditions (exists / for_all over further variables) as branch conditions; a third of the "
+        "plain cases are grown the ripple-down way (base rule, evaluate, then the branches - all at once or with an evaluation "
+        "after each); thorough adds every tree "
         "shape with <=4 branches over a one-variable 8-element domain.  Non-trivial = at least two different branches "
         "fire for some bindings and at least one binding fires nothing; distinct = tree shape (kinds and nesting) x "
         "condition skeletons")
@@ -218,7 +220,7 @@ def gen(rng, tier, ctx):
             for _, ch in r["children"]:
                 strip(ch, depth + 1)
         strip(rule, 0)
-    return {"world": world, "vars": vars_, "rule": rule}
+    return {"world": world, "vars": vars_, "rule": rule, "grow": rng.choice([False, False, False, False, "at_once", "stepwise"])}
 
 
 def all_shapes(max_branches):
@@ -437,6 +439,26 @@ def build_and_run(spec, m, objs):
             with ctxm:
                 write(ch)
 
+    if spec.get("grow"):
+        # the ripple-down workflow: write the base rule, look at its results, write a branch, look again, ...
+        root = spec["rule"]
+        with q:
+            conclude(root)
+        list(q.evaluate())
+        if spec["grow"] == "at_once":
+            # all the branches are written in one go after the first look
+            with q:
+                for kind, ch in root["children"]:
+                    with {"ref": refinement, "alt": alternative, "next": next_rule}[kind](bc(ch["cond"])):
+                        write(ch)
+            return list(q.evaluate())
+        for kind, ch in root["children"]:
+            with q:
+                ctxm = {"ref": refinement, "alt": alternative, "next": next_rule}[kind](bc(ch["cond"]))
+                with ctxm:
+                    write(ch)
+            list(q.evaluate())
+        return list(q.evaluate())
     with q:
         write(spec["rule"])
     return list(q.evaluate())
@@ -601,4 +623,9 @@ def witnesses():
         "qvars": [{"name": "u0", "type": "P", "dom": [0, 6], "kind": "list"}],
         "rule": {"id": "r0", "cond": ["and", base, ["forall", "u0", ["cmp", ">", ["attr", ["var", "x"], "a"], ["attr", ["var", "u0"], "a"]]]],
                  "children": [["alt", {"id": "r1", "cond": ["cmp", "==", ["attr", ["var", "x"], "b"], ["lit", 1]], "children": []}]]}}
+    # two branches written in one go after a first look at the results of the base rule
+    w["branch-written-after-evaluation-dropped"] = {"world": world, "vars": X, "grow": "at_once", "rule": {
+        "id": "r0", "cond": ["cmp", "==", ["attr", ["var", "x"], "a"], ["lit", 1]], "children": [
+            ["ref", {"id": "r1", "cond": ["cmp", "==", ["attr", ["var", "x"], "b"], ["lit", 1]], "children": []}],
+            ["alt", {"id": "r2", "cond": c_items(1), "children": []}]]}}
     return w
